@@ -12,17 +12,17 @@ NOT_APPLICABLE = {}
 PROPS = {
     "C05": dict(
         level_text="Proof, PARTIAL (as designed, DESIGN.md §6 C05): kernel-checked for ALL inputs are (a) the error constructors of exception.go over their regenerated vocabulary tables only build ISO error terms, and the residue of a recovered Go panic is not one (C05_errors_iso, C05_error_tables_iso, C05_panic_not_iso); (b) the token-level term reader of parser.go (term/termLoop/term0/term0Atom/arg/list/curly/openClose/functionalNotation/prefix/infix/op/atom/name over an explicit token buffer with explicit backup()) terminates on every token list under every operator table (C05_parser_terminates: every call consumes input or moves to a function of smaller rank) and its buffer stays in step with what was read — every backup() undoes a token delivered to the same call (C05_ring_buffer_sound, C05_read_terminates_sound); on the model of the PINNED reader the negations are proved (C05_parser_terminates_witness: '[-' diverges for every fuel = the stack overflow D1; C05_ring_buffer_sound_witness: the 4-slot ring aliases and skips tokens, D20; C05_backup_at_eof_witness, D21); (c) the procedure list the matrix runs over is the regenerated list of Register* calls + bootstrap.pl heads (C05_builtins_tie). NOT proved, only driven on the real code in an isolated worker process: the ~150 procedures themselves (c05.matrix: every procedure x argument-shape vectors, oracle = returned, process alive, error is an ISO error term by the Lean predicate isIsoError, no panic residue), and whole-text handling by Query/Exec (c05.text: grammar-generated, mutated, truncated, raw bytes, every string of <= 4 tokens over a 16-token alphabet).",
-        level_note="Trusted: Lean kernel; the hand-written model of the token-level reader (checked against the real Parser result by result on ~10^4..10^5 token lists incl. all of length <= 4 over 16 tokens; 0 disagreements), the lexer is NOT part of this model (C06); extractor for exception.go/interpreter.go tables; the matrix/text oracles are observations bounded by the generators (29 argument shapes, pairwise for arity >= 3). halt/0,1 excluded; cyclic terms and memory-bound inputs excluded by the property.",
+        level_note="Trusted: Lean kernel; the hand-written model of the token-level reader (checked against the real Parser result by result on ~10^4..10^5 token lists incl. all of length <= 4 over 16 tokens; 0 disagreements), the lexer is NOT part of this model (C06); extractor for exception.go/interpreter.go tables; the matrix/text oracles are observations bounded by the generators (41 argument shapes, pairwise for arity >= 3). halt/0,1 excluded; cyclic terms and memory-bound inputs excluded by the property.",
         technique="Lean 4: termination/soundness of the recursive-descent reader by induction on fuel with a lexicographic measure over a zipper model of the token buffer; decidable ISO-error predicate over regenerated tables; divergence witness for the pinned code; isolated-process matrix and text fuzzing of the real engine judged by the Lean predicate",
         lean_module="PrologVerif.Properties.C05",
         ns="PrologVerif.C05",
-        thorough_seeds=2,
+        thorough_seeds=1,
         streams=[
-            dict(name="c05.matrix", quick=9000, thorough=100000, isolated=True, case_timeout=8, no_model_compare=True),
-            dict(name="c05.text", quick=2500, thorough=15000, isolated=True, case_timeout=8, no_model_compare=True),
-            dict(name="c05.parse", quick=3000, thorough=30000, isolated=True, case_timeout=8),
+            dict(name="c05.matrix", quick=4000, thorough=100000, isolated=True, case_timeout=15, no_model_compare=True),
+            dict(name="c05.text", quick=2500, thorough=30000, isolated=True, case_timeout=15, no_model_compare=True),
+            dict(name="c05.parse", quick=3000, thorough=60000, isolated=True, case_timeout=15),
         ],
-        rule="c05.matrix: goal p(t1..tn) for every procedure of a fresh interpreter (hook VerifProcedures; halt/0,1 excluded) x vectors over 29 argument shapes (unbound, atom, [], 1, 0, 10^14, -1, minInt, maxInt, 1.5, f(_), (true,!), (a,b), (true,1), [a,b], [1,2], [a|_], [a|b], \"ab\" as chars / codes, append/3-built lists over charList/codeList closed and open, f(L) with such an L, text-in / text-out / binary-in stream, closed stream, user_input, user_output): arity <= 1 all vectors, arity 2 all vectors (thorough) or a uniform sample (quick), arity 3..8 a pairwise-covering array (29^2 rows) — non-trivial = the call raised an error term (an argument check fired and the oracle judged its result). c05.text: non-trivial = Query or Exec took an error path. c05.parse: non-trivial = at least 2 tokens. distinct = distinct case text",
+        rule="c05.matrix: goal p(t1..tn) for every procedure of a fresh interpreter (hook VerifProcedures; halt/0,1 excluded) x vectors over 41 argument shapes (unbound, atom, [], 1, 0, 10^14, -1, minInt, maxInt, 1.5, f(_), (true,!), (a,b), (true,1), [a,b], [1,2], [a|_], [a|b], \"ab\" as chars / codes, append/3-built lists over charList/codeList closed and open, f(L) with such an L, text-in / text-out / binary-in stream, closed stream, user_input, user_output, and 12 values that pass specific argument checks: foo, read, write, double_quotes, foo/1, [b-2,a-1], [quoted(true)], [type(binary)], [variable_names(['X'=_])], 1114112, a 1500-deep term, a 1500-element list): arity <= 2 all vectors, arity 3..8 a pairwise-covering array (41^2 rows); the quick tier runs this complete matrix over 19 core shapes plus a uniform sample of the rest, the thorough tier all of it — non-trivial = the call raised an error term (an argument check fired and the oracle judged its result). c05.text: non-trivial = Query or Exec took an error path. c05.parse: non-trivial = at least 2 tokens. distinct = distinct case text",
         trusted=[
             "modelled (hand-written, correspondence-checked on c05.parse): engine/parser.go next/backup/current (tokenBuffer), name, atom, op, prefix, infix, term (incl. its infix loop), term0, term0Atom, openClose, curlyBracketedTerm, list, functionalNotation, arg, Term, More; variable numbering; integer() for small decimals",
             "regenerated from source on every run: the eight vocabulary tables, the constructors and typed wrappers of engine/exception.go, every atomError.Apply site outside it, the format string of promise.go panicError (Generated/ErrorAtoms.lean); every Register* call of interpreter.go and every clause head of bootstrap.pl (Generated/Builtins.lean); the default operator table (Generated/Bootstrap.lean)",
@@ -33,7 +33,7 @@ PROPS = {
                   "regenerated": ["exception.go tables/constructors", "interpreter.go Register* calls", "bootstrap.pl heads and op/3 directives"],
                   "observed_only": ["every procedure of engine/builtin.go (c05.matrix)", "Interpreter.Query / Exec on arbitrary bytes (c05.text)", "Lexer"]},
         assumptions=["the lexer delivers a finite token list and then its error forever (true for the string readers of Query/Exec; the lexer itself is C06's model)",
-                     "argument shapes of the matrix are the 29 listed ones; cyclic terms, halt/0,1 and inputs beyond the memory bound are excluded by the property"],
+                     "argument shapes of the matrix are the 41 listed ones; cyclic terms, halt/0,1 and inputs beyond the memory bound are excluded by the property"],
     ),
     "C18": dict(
         level_text="Proof: the operator-table state machine (Op/validateOp/CurrentOp and the operators methods) is modelled in Lean; for ALL histories of op/3 calls with arbitrary argument terms the ISO invariant (C18_inv), atomicity of failed updates (C18_atomic), the exact effect of successful updates (C18_update_exact: latest wins, 0 removes, other classes kept) and exactness of current_op/3 (C18_current_op_exact) are kernel-checked theorems, the default table being regenerated from bootstrap.pl. The model is tied to the Go code by the c18.hist correspondence stream (impl vs model, plus an independent executable ISO specification as oracle, plus reader/writer probes).",
